@@ -63,7 +63,7 @@ VarName(scheme, p) == CASE scheme = "plain" -> "v" \o ToString(p)
                         [] scheme = "chained" -> "v" \o ToString(p)
                         [] scheme = "ownkey" -> "v" \o ToString(p)
 \* unreferenced variables: names chosen to collide with optional keys the sections do NOT define
-ExtraVars == {"cutoff", "dr", "target2", "xy", "Al.charge", "B-A", "g(r)", "Al-Cu", "Al"}
+ExtraVars == {"cutoff", "dr", "xy", "Al.charge", "B-A", "g(r)", "Al-Cu", "Al", "V1", "V2"}      \* V1, V2: the names of lifted variables in another case
 
 VARIABLES P, scheme, extra,    \* the templated file (choices)
           todo,                \* sections not yet read
